@@ -15,7 +15,7 @@ one() {
   if ! git -C "$W/repo" apply "$P" 2>/dev/null; then echo "$S: PATCH-DOES-NOT-APPLY"; git -C /repo worktree remove --force "$W/repo"; rm -rf "$W"; return; fi
   rsync -a --exclude .git --exclude '.cache/overlay' --exclude '.cache/*.log' --exclude replays /verif/ "$W/verif/"
   L=/verif/.cache/pseed_$(basename $S).$ID.$TIER.log
-  unshare -m sh -c "mount --bind $W/repo /repo && mount --bind $W/verif /verif && cd /verif && ./run $ID $TIER" > "$L" 2>&1; rc=$?
+  timeout -k 10 2700 unshare -m sh -c "mount --bind $W/repo /repo && mount --bind $W/verif /verif && cd /verif && ./run $ID $TIER" > "$L" 2>&1; rc=$?
   if [ $rc -eq 1 ] && grep -q "^VIOLATION property=$ID" "$L"; then echo "$(basename $S): DETECTED by $ID $TIER ($(grep -c '^  violation key' "$L") keys: $(grep '^  violation key' "$L" | head -2 | cut -c1-140 | tr '\n' '|'))"; else echo "$(basename $S): MISSED by $ID $TIER (exit $rc) $(grep -E '^(SUMMARY|HARNESS)' "$L" | head -1 | cut -c1-160)"; fi
   git -C /repo worktree remove --force "$W/repo"; rm -rf "$W"
 }
